@@ -21,7 +21,7 @@ Definition dcr_denote (c : dcr_cst) : ditrule :=
         (match h_desc (dc_h c) with Some (_, _, ds) => Some (map den ds) | None => None end)
         (match h_obs (dc_h c) with Some _ => true | None => false end)
         (part_den oids_den (dc_caux c)) (part_den oids_den (dc_cmust c)) (part_den oids_den (dc_cmay c)) (part_den oids_den (dc_cnot c))
-        (map ext_den (dc_cext c)).
+        (exts_den (dc_cext c)).
 
 Definition dcr_cst_wf (c : dcr_cst) : Prop :=
   head_ok (dc_h c) /\ part_ok oids_wf (dc_caux c) /\ part_ok oids_wf (dc_cmust c) /\ part_ok oids_wf (dc_cmay c) /\
@@ -54,7 +54,7 @@ Lemma drej5 : rej_ok DCR_t5.  Proof. split; [reflexivity|apply dfirst5]. Qed.
 Lemma drej4 : rej_ok DCR_t4.  Proof. split; [reflexivity|apply dfirst4]. Qed.
 
 Lemma gdcr_t8 c : dcr_cst_wf c -> tail_ok DCR_t8 (r8 c) 112 (E8 c).
-Proof. intros (_ & _ & _ & _ & _ & [He _]). apply (ext_tail_g 112); [lia|assumption]. Qed.
+Proof. intros (_ & _ & _ & _ & _ & He). apply (ext_tail_g 112); [lia|assumption]. Qed.
 
 Lemma gdcr_t7 c : dcr_cst_wf c -> tail_ok DCR_t7 (r7 c) 89 (E7 c).
 Proof.
